@@ -127,7 +127,10 @@ func (p *Proposal) CloseProposal(totalVotingStake quantity.Quantity, stakeThresh
 		return fmt.Errorf("%w: results not initialized", errInvalidProposalState)
 	}
 	if totalVotingStake.IsZero() {
-		return fmt.Errorf("%w: total voting stake is zero", errInvalidProposalState)
+		// Nobody is entitled to vote (e.g., all validator entities have been slashed to zero), so
+		// there cannot be any yes votes and the proposal is rejected.
+		p.State = StateRejected
+		return nil
 	}
 
 	votedStake, err := p.VotedSum()
